@@ -34,6 +34,8 @@ pub enum Stmt {
     /// a reuse of a template that is defined only at the end of the document: its first attempt fails, it is
     /// instantiated when it is tried again
     ReuseLate(Vec<(usize, Val)>),
+    /// `<defaults><_ name="value"/></defaults>`: an attribute every later *element* gets - which assigns nothing
+    Dflt(usize, String),
     /// a probe with an id in the document body (not in <specs>): rendered where it stands, and the target of `ReuseBody`
     Body,
     /// a reuse of that element: its references are resolved where the instance is made, reuse attributes shadowing
@@ -195,6 +197,23 @@ fn fam_programs(_t: Tier) -> BoxedStrategy<Case> {
             retarget(&mut prog, &mut 0);
             prog.insert(1, Stmt::Body);
         }
+        // one program in four declares a wildcard element default named like a variable (and, a default reaching a <reuse>
+        // being a binding by design, has its reuses replaced by probes)
+        if init == 3 {
+            fn unreuse(p: &mut [Stmt]) {
+                for s in p.iter_mut() {
+                    match s {
+                        Stmt::Reuse(_) | Stmt::ReuseLate(_) => *s = Stmt::Probe,
+                        Stmt::G(_, b) | Stmt::Loop(_, b) | Stmt::If(_, b) => unreuse(b),
+                        _ => {}
+                    }
+                }
+            }
+            unreuse(&mut prog);
+            // (a, b or fill: names that are not geometry attributes of the shapes in the document)
+            let k = [0usize, 1, 3][prog.len() % 3];
+            prog.insert(1, Stmt::Dflt(k, LITS[prog.len() % 8].to_string()));
+        }
         prog.push(Stmt::Probe);
         Case { prog }
     }).boxed()
@@ -241,6 +260,7 @@ fn render(prog: &[Stmt], out: &mut Vec<X>) {
                 }
                 out.push(X::El(r));
             }
+            Stmt::Dflt(k, v) => out.push(X::El(XEl::new("defaults").kid(XEl::new("_").a(NAMES[*k], v.clone())))),
             Stmt::Body => out.push(X::El(XEl::new("text").a("id", "pt").a("data-q", "1").a("xy", "0 0").a("text", probe_text().replace("p:", "q:")))),
             Stmt::ReuseBody(attrs) => {
                 let mut r = XEl::new("reuse").a("href", "#pt");
@@ -364,6 +384,7 @@ fn interpret(prog: &[Stmt], stack: &mut Vec<Scope>, out: &mut Vec<String>) -> Op
                 stack.pop();
                 stack.pop();
             }
+            Stmt::Dflt(..) => {}
             Stmt::Body => out.push(probe_expected("q", stack)),
             Stmt::ReuseBody(attrs) => {
                 let bound: Scope = attrs.iter().map(|(k, v)| eval_val(v, stack).map(|x| (*k, x))).collect::<Option<Scope>>()?;
